@@ -39,21 +39,24 @@ _dir = None
 _full = {}
 
 
-def _path(ext, n, first=0):
-    return os.path.join(_dir, "t_%d_%d.%s" % (n, first, ext))
+def _path(ext, n, first=0, shape=0):
+    return os.path.join(_dir, "t%d_%d_%d.%s" % (shape, n, first, ext))
 
 
 def _prepare(scratch, maxn):
     global _dir
     _dir = os.path.join(scratch, "files")
     os.makedirs(_dir, exist_ok=True)
-    for ext in FORMATS:
-        for n in range(1, maxn + 1):
-            trajgen.write_file(_path(ext, n), n)
-            for first in range(1, maxn + 1):     # second file of a list: frames first..first+n-1
-                p = _path(ext, n, first)
-                trajgen.rm(p)
-                trajgen.trajectory(n, first=first).save(p)
+    for shape in range(len(trajgen.SHAPES)):
+        for ext in FORMATS:
+            trajgen.set_shape(shape, ext)
+            for n in range(1, maxn + 1):
+                trajgen.write_file(_path(ext, n, 0, shape), n)
+                for first in range(1, maxn + 1):     # second file of a list: frames first..first+n-1
+                    p = _path(ext, n, first, shape)
+                    trajgen.rm(p)
+                    trajgen.trajectory(n, first=first).save(p)
+    trajgen.set_shape(0)
 
 
 def _full_load(path, ext):
@@ -98,9 +101,11 @@ def _fields_match(t, full, ids, atoms, what):
 
 def _replay(task):
     import mdtraj as md
-    ext, c = task
+    ext, c = task[0], task[1]
+    shape = task[2] if len(task) > 2 else 0
+    trajgen.set_shape(shape, ext)
     kind, n, atoms = c["kind"], c["n"], list(c["atoms"])
-    path = _path(ext, n)
+    path = _path(ext, n, 0, shape)
     topkw = {} if ext in TOPEXT else {"top": trajgen.topology()}
     akw = {"atom_indices": np.array(atoms)} if atoms else {}
     full = _full_load(path, ext)
@@ -130,7 +135,7 @@ def _replay(task):
             oc = _obs_chunk(t); obs["chunks"].append(oc["ids"]); obs["atoms"] = oc["atoms"]
             fbad += _fields_match(t, full, oc["ids"], atoms, "frame")
         elif kind == "load_list":
-            p2 = _path(ext, c["n2"], n)
+            p2 = _path(ext, c["n2"], n, shape)
             skw = {"stride": c["stride"]} if c["stride"] > 1 else {}
             t = md.load([path, p2], **topkw, **akw, **skw)
             oc = _obs_chunk(t); obs["chunks"].append(oc["ids"]); obs["atoms"] = oc["atoms"]
@@ -163,7 +168,7 @@ def _feature(c):
 
 
 def _hazard(t):
-    ext, c = t
+    ext, c = t[0], t[1]
     return ext == "trr" and c["stride"] > 1 and len(c["atoms"]) > 0 and c["kind"] in ("iterload", "load", "load_list")
 
 
@@ -175,12 +180,12 @@ def run(ctx):
         _prepare(ctx.scratch, maxn)
     except Exception as e:
         ctx.machinery_failure("cannot prepare test files: %r" % (e,))
-    tasks = [(ext, c) for ext in FORMATS for c in configs]
+    tasks = [(ext, c, shape) for shape in range(len(trajgen.SHAPES)) for ext in FORMATS for c in configs]
     if ctx.replay:
         rp = json.load(open(ctx.replay))
         tasks = [tuple(rp["first"]["detail"]["task"])]
-    elif not ctx.thorough and len(tasks) > 30000:
-        tasks = stratified_sample(tasks, lambda t: (t[0],) + _feature(t[1]), 30000, ctx.rng)
+    elif not ctx.thorough and len(tasks) > 40000:
+        tasks = stratified_sample(tasks, lambda t: (t[0], t[2]) + _feature(t[1]), 40000, ctx.rng)
     # TRR with stride>1 and an atom subset overflows a heap buffer in the pinned code (known finding): such calls
     # run one per throw-away process so that heap corruption cannot leak into the verdict of any other task
     haz = [t for t in tasks if _hazard(t)]
@@ -205,7 +210,7 @@ def run(ctx):
             rr = ctx.tlc("Loader", "Loader_dev_%s.cfg" % ext.replace(".", "_"), must_pass=False, workers=8,
                          cfg_text=CFG_DEV % dict(MaxN=maxn, MaxStride=maxs, dev=", ".join('"%s"' % d for d in devs)))
             dev_expect[ext] = {_ckey(c): c for c in rr.tr}
-    for (ext, c), v in fails:
+    for (ext, c, shape), v in fails:
         key = None
         d = dev_expect.get(ext, {}).get(_ckey(c))
         if d is not None and d.get("dev") and "%s:%s" % (ext, d["dev"]) in ctx.open_findings:
@@ -217,18 +222,18 @@ def run(ctx):
                 same = v["status"] == d["status"]
             if same:
                 key = "%s:%s" % (ext, d["dev"])
-        what = "%s %s: expected chunks %s observed %s %s %s" % (
-            ext, json.dumps({k: c[k] for k in ("kind", "n", "n2", "chunk", "stride", "skip", "frame", "atoms")}),
+        what = "%s [%d atoms, %s] %s: expected chunks %s observed %s %s %s" % (
+            ext, trajgen.SHAPES[shape][0], "cell" if trajgen.SHAPES[shape][1] else "no cell", json.dumps({k: c[k] for k in ("kind", "n", "n2", "chunk", "stride", "skip", "frame", "atoms")}),
             json.dumps(c["out"]), v["status"], json.dumps(v["chunks"])[:200], v.get("exc", "") or v["field_mismatch"])
         cls = "%s %s %s%s" % (ext, c["kind"], v["status"] if v["status"] != "ok" else
                               ("field mismatch %s" % v["field_mismatch"] if v["chunks"] == [list(x) for x in c["out"]] else "wrong frames/atoms"),
                               " [chunk=0]" if c["kind"] == "iterload" and c["chunk"] == 0 else "")
-        ctx.discrepancy(key, what, dict(task=[ext, c], observed=v), cls=cls)
+        ctx.discrepancy(key, what, dict(task=[ext, c, shape], observed=v), cls=cls)
     samples = [dict(format=t[0], config=t[1]) for t in tasks[:: max(1, len(tasks) // 3)][:3]]
     cov = dict(traces_validated_against_impl=len(tasks), replays_failing=len(fails), configurations=len(configs),
                formats=FORMATS, MaxN=maxn, MaxStride=maxs, samples=samples,
                explanation="every (kind, N, chunk, stride, skip, frame, atoms) configuration of Loader.tla replayed through "
-                           "md.iterload / md.load / md.load_frame / md.load([..]) on each format; chunk frame ids, atom ids, and "
+                           "md.iterload / md.load / md.load_frame / md.load([..]) on each format, on files of two shapes (11 atoms with cell; 20 atoms, no cell where the format allows); chunk frame ids, atom ids, and "
                            "bitwise equality of xyz/time/cell/topology names with the full load are compared")
     return ctx.finish(cov, "model_checking",
                       ["files are written by mdtraj's writers and verified by full load",
